@@ -399,6 +399,8 @@ theorem dispatch_once_per_thread (n : Nat) (wire token : Bytes) (hn : Nat) (hp :
     · exact h
 
 example : dispatchThreads 4 [6, 2, 7, 0] [] 1 [0, 2] = [0, 2] := by decide
+/-- an Interest whose outer type is written in the three-byte form (`fd 00 05`) is an Interest: the thread of its name -/
+example : dispatchThreads 4 [0xfd, 0, 5, 2, 7, 0] [] 1 [0, 2] = [1] := by decide
 
 /-- **C10, the sequence ranges of one sender's packets are disjoint.**  Packets sent one after the
     other by one link service (any start value of the 64-bit counter, wrap-around included) get
